@@ -73,7 +73,20 @@ fn exec_wire(p: &Program, ctx: &Context) -> String {
 }
 
 fn history(em: &mut Emit, rng: &mut Rng, steps: usize, hid: u64) {
-    let (spec, tys) = extreme_ctx(rng, true);
+    let (mut spec, tys) = extreme_ctx(rng, true);
+    // one history in four runs over long buffers (lengths around capacity / chunk thresholds)
+    if rng.chance(1, 4) {
+        let n = *rng.pick(&[15usize, 16, 17, 31, 32, 33, 63, 64, 65, 127, 128, 129, 255, 256, 257]);
+        for (name, v) in spec.vars.iter_mut() {
+            match name.as_str() {
+                "vl0" => *v = Value::List(Arc::new((0..n as i64).map(Value::Int).collect())),
+                "vl1" => *v = Value::List(Arc::new((0..(n as i64 + 1)).map(|i| Value::Int(i % 5)).collect())),
+                "vs0" => *v = Value::String(Arc::new((0..n).map(|i| if i % 5 == 2 { 'é' } else { 'a' }).collect())),
+                "vs1" => *v = Value::String(Arc::new("b".repeat(n - 1))),
+                _ => {}
+            }
+        }
+    }
     let ctx: Context<'static> = spec.build();
     let names: Vec<String> = spec.vars.iter().map(|(n, _)| n.clone()).collect();
     let snapshot = |ctx: &Context| -> Vec<String> {
